@@ -155,6 +155,8 @@ class World:
         if any(numpy.iscomplexobj(XDATA[n]) for n in self.cfg["ctx"]):
             key += "/complex-hermitian-context" + ("/real-storage" if self.cfg.get("realdata")
                                                    else "")
+        if self.cfg.get("shared_sbi"):
+            key += "/forms-sharing-one-system-bath-interaction"
         if key not in [x[0] for x in self.viol]:
             self.viol.append((key, what, det))
 
@@ -244,8 +246,12 @@ class World:
             hh = qr.Hamiltonian(data=_vals("ham", 0)["_data"].copy())
             k1 = numpy.zeros((3, 3)); k1[0, 1] = 1.0
             k2 = numpy.zeros((3, 3)); k2[2, 1] = 1.0; k2[1, 1] = 0.5
-            sbi = SystemBathInteraction([Operator(data=k1), Operator(data=k2)],
-                                        rates=[0.3, 0.7])
+            if self.cfg.get("shared_sbi") and getattr(self, "_sbi", None) is not None:
+                sbi = self._sbi          # several forms made from ONE system-bath interaction
+            else:
+                sbi = SystemBathInteraction([Operator(data=k1), Operator(data=k2)],
+                                            rates=[0.3, 0.7])
+                self._sbi = sbi
             o = LindbladForm(hh, sbi, as_operators=(kind == "lindop"))
             if kind == "lindop":
                 vals = {a: numpy.array(getattr(o, a), dtype=complex, copy=True)
@@ -723,6 +729,8 @@ def sections(tier):
             secs.append(("at-" + k, {"ctx": ["A", "B"], "kinds": [], "nobj": 0, "nest": 2,
                                      "nexc": 1, "protect": False, "napply": 0, "nat": 1,
                                      "precreate": [k]}, 4))
+        secs.append(("shared-sbi", {"ctx": ["A", "B"], "kinds": ["lindop"], "nobj": 2, "nest": 2,
+                                    "nexc": 0, "protect": False, "shared_sbi": True}, 4))
         secs.append(("complex-context-operator", {"ctx": ["Z", "A"],
                                                   "kinds": ["dmom", "dme", "op", "sup"],
                                                   "nobj": 1, "nest": 2, "nexc": 1,
@@ -736,6 +744,8 @@ def sections(tier):
                                        "nest": 3, "nexc": 2, "protect": True}, 6))
         secs.append(("mixed", {"ctx": ["A", "B", "C"], "kinds": ["op", "ham", "sup", "rho", "dme"],
                                "nobj": 3, "nest": 3, "nexc": 2, "protect": True, "misfit": True}, 6))
+        secs.append(("shared-sbi", {"ctx": ["A", "B"], "kinds": ["lindop", "lindten"], "nobj": 3,
+                                    "nest": 2, "nexc": 1, "protect": False, "shared_sbi": True}, 6))
         secs.append(("failed-access", {"ctx": ["A", "B"], "kinds": ["op", "sup"], "nobj": 2,
                                        "nest": 3, "nexc": 1, "protect": False, "misfit": True}, 6))
         secs.append(("apply-sup", {"ctx": ["A", "B", "C"], "kinds": [], "nobj": 0, "nest": 3,
